@@ -39,7 +39,7 @@ APPLICATORS = {"properties", "items", "prefixItems", "anyOf", "oneOf", "allOf", 
 @st.composite
 def strategy_(draw, tier):
     sets = chance(draw, 0.5)
-    cfg = {"max_depth": 3 if tier == "quick" else 4, "generics": True, "fall_back": False, "explicit_unique": not sets}
+    cfg = {"max_depth": 3 if tier == "quick" else 4, "field_conv": True, "generics": True, "fall_back": False, "explicit_unique": not sets}
     prog = draw(gen.programs(cfg))
     opts = {"additional_properties": chance(draw, 0.3), "fall_back_on_default": False,
             "aliaser": pick(draw, ["id", "id", "camel", "pfx"]), "coerce": False, "all_refs": pick(draw, [None, True, False])}
